@@ -12,7 +12,8 @@ func init() {
 		ID: "C07",
 		Explanation: "Structural necessary conditions of 'frames are written whole': R1 only the two contextWriter implementations touch the write side of the socket, the coalescer has exactly one flusher; R2 the direct writer writes the whole frame in one Write inside its semaphore critical section; R3 exec writes the complete buffer of a framer private to that invocation, after a successful build; " +
 			"R4 the contextWriter contract: once a frame was handed over (semaphore taken / request enqueued) the caller's context is no longer consulted, so 'n==0 with a context error' really means no bytes; R5 coalescer accounting: every pending writer gets exactly one result, success only for fully written buffers, and nothing after the first cut buffer is reported written; R6 a failed write closes the connection or releases an unstarted request (=C06.R4); R7 a write failure is sticky: the writer refuses further frames before giving up its serialisation token." +
-			" R7 additionally requires the failure latch to be set on every path from a socket write that may have failed to an exit of the writer; R9 the header length of every frame equals the bytes that follow it (=C18.R7).",
+			" R7 additionally requires the failure latch to be set on every path from a socket write that may have failed to an exit of the writer; R9 the header length of every frame equals the bytes that follow it (=C18.R7)." +
+			" R7 also: the failure state is examined after the write token was acquired; R10 exec hands the request's own context to the writer.",
 		NotDecided: "byte-level interleaving for all split points of the underlying writes (needs the byte stream); behaviour of net.Buffers.WriteTo itself.",
 		Rules: []*Rule{
 			{ID: "C07.R1", Floor: 6, Doc: "single owner of the socket's write side; one flusher per coalescer", Run: c07r1},
